@@ -219,8 +219,7 @@ def _r2(repo, L, scope):
                         continue  # index not moved by this loop: not an index walk
                     n_loops += 1
                     if None in dirs or len(dirs) != 1:
-                        L.fail("R2", inst, f"index '{var}' is moved in an unrecognised way inside a loop that subscripts {seq_txt}[{var}]", f.loc(w))
-                        continue
+                        raise AnalysisError(f"{inst}: index '{var}' is moved in a way the walk rule does not understand inside a loop that subscripts {seq_txt}[{var}]")
                     d = dirs.pop()
                     res = [_bounds(c, var, d, seq_txt, ixl) for c in before]
                     ok = any(r is True for r in res)
